@@ -509,4 +509,3 @@ func (w *World) guardedByCanInterface(field *ssa.Call, use *ssa.Call) (bool, str
 	}
 	return false, "Interface() on a struct field without a dominating CanInterface() test: panics for an unexported field"
 }
-
